@@ -187,6 +187,27 @@ def oracle_bare(c):
     if (r.pp_desc, list(r.lots), list(r.qqs)) != (other.pp_desc, list(other.lots), list(other.qqs)):
         fails.append(Failure("bare_quarter_after_reconfiguration", f"{text!r}: created with clean_qq={c['clean_qq']}, then .config = 'clean_qq.{not c['clean_qq']}' and parse() gives {r.pp_desc!r} {r.qqs}, a fresh Tract gives {other.pp_desc!r} {other.qqs}",
                              text=text))
+    # a later configuration that does not mention clean_qq leaves it in force
+    u = Tract(text, config=cfg)
+    u.config = "qq_depth_min.1"
+    u.parse()
+    fresh_u = Tract(text, parse_qq=True, config=",".join(x for x in (cfg, "qq_depth_min.1") if x))
+    if (u.pp_desc, list(u.lots), list(u.qqs)) != (fresh_u.pp_desc, list(fresh_u.lots), list(fresh_u.qqs)):
+        fails.append(Failure("bare_quarter_after_unrelated_configuration", f"{text!r}: created with config {cfg!r}, then .config = 'qq_depth_min.1' and parse() gives {u.pp_desc!r} {u.qqs}, a fresh Tract with both gives {fresh_u.pp_desc!r} {fresh_u.qqs}",
+                             text=text))
+    # the attribute set directly; and preprocess() (no keyword) after either kind of change follows the current setting
+    for how in ("attribute", "config"):
+        a = Tract(text, parse_qq=(how == "config"), config=cfg)
+        if how == "attribute":
+            a.clean_qq = not c["clean_qq"]
+        else:
+            a.config = "clean_qq.False" if c["clean_qq"] else "clean_qq.True"
+        pre = a.preprocess()
+        if pre != other.pp_desc:
+            fails.append(Failure("bare_quarter_preprocess_after_change", f"{text!r}: created with clean_qq={c['clean_qq']}, switched through the {how}, preprocess() gives {pre!r}, a fresh Tract has {other.pp_desc!r}", text=text))
+        a.parse()
+        if (a.pp_desc, list(a.lots), list(a.qqs)) != (other.pp_desc, list(other.lots), list(other.qqs)):
+            fails.append(Failure("bare_quarter_after_attribute", f"{text!r}: created with clean_qq={c['clean_qq']}, switched through the {how}, parse() gives {a.pp_desc!r} {a.qqs}, a fresh Tract gives {other.pp_desc!r} {other.qqs}", text=text))
     is_aliquot = (c["q"] + "¼") in t.pp_desc
     if is_aliquot != want:
         fails.append(Failure("bare_quarter", f"{text!r} [clean_qq={c['clean_qq']}]: bare {q!r} treated as aliquot={is_aliquot}, expected {want} (pp_desc {t.pp_desc!r})",
